@@ -19,7 +19,8 @@ WithLevels(e) == [e EXCEPT !.m = e.m \o << <<"Levels", Obj(<< <<"other", S0>> >>
 ValueCols == {HedEntry(Str(1, r, "ok")) : r \in RefChoices}
 Cat1Cols  == {HedEntry(Obj(<< <<"other", Str(0, r, "ok")>> >>)) : r \in RefChoices}
 Cat2Cols(R) == {HedEntry(Obj(<< <<"other", Str(0, r, "ok")>>, <<"Description", Str(0, q, "ok")>> >>)) : r \in R, q \in R}
-IgnoreCols == {Obj(<< <<"Description", S0>> >>), Obj(<<>>), Obj(<< <<"Levels", List(<<Num, S0>>)>> >>)}
+IgnoreCols == {Obj(<< <<"Description", S0>> >>), Obj(<<>>), Obj(<< <<"Levels", List(<<Num, S0>>)>> >>),
+               S0, Num, Null, List(<<Num, S0>>)}            \* entries that are not objects ("TaskName": "rest")
 DefCols   == {HedEntry(Obj(<< <<"other", DefStr>> >>)), HedEntry(Obj(<< <<"other", DefStr>>, <<"Description", DefStr>> >>))}
 EntriesFull == ValueCols \cup Cat1Cols \cup Cat2Cols(RefChoices) \cup IgnoreCols \cup DefCols
                \cup {WithDescription(e) : e \in ValueCols} \cup {WithLevels(e) : e \in Cat1Cols}
